@@ -247,3 +247,75 @@ Definition localint_closed_at (A adj : list (list Q)) (tol : Q) (actions : list 
   if existsb (Z.eqb j) players
   then best_response (mat_vec A (neighbour_counts (zlen A) (nth (Z.to_nat j) adj []) actions)) tol
   else Some (zget actions j).
+
+(* ---------- N-player FictitiousPlay ----------
+   A player's payoff array is an N-dimensional array (own action first, then opponents i+1, ..., i-1), here a
+   nested list.  Player.payoff_vector: for k in reversed(range(num_opponents)): pv = pv.dot(opponents_actions[k])
+   contracts the LAST axis each time. *)
+Section NPlayer.
+Context {T : Type} `{Num T}.
+
+Inductive tensor : Type := Leaf (v : T) | Node (l : list tensor).
+
+Definition leaf_val (t : tensor) : T := match t with Leaf v => v | Node _ => nzero end.
+
+(* contract the axis at nesting depth d (the last one) with the vector x *)
+Fixpoint contract (d : nat) (t : tensor) (x : list T) : tensor :=
+  match d, t with
+  | O, Node l => Leaf (dot (map leaf_val l) x)
+  | S d', Node l => Node (map (fun s => contract d' s x) l)
+  | _, Leaf v => Leaf v
+  end.
+
+(* ropps = opponents' mixed actions in REVERSE order: the head is contracted first (it is the last axis) *)
+Fixpoint contract_all (t : tensor) (ropps : list (list T)) : tensor :=
+  match ropps with
+  | [] => t
+  | x :: r => contract_all (contract (S (length r)) t x) r
+  end.
+Definition tvec (t : tensor) : list T := match t with Node l => map leaf_val l | Leaf v => [v] end.
+
+Definition opponents_of {A} (xs : list A) (i : nat) : list A := skipn (S i) xs ++ firstn i xs.
+
+Definition payoff_vector_n (t : tensor) (xs : list (list T)) (i : nat) : list T :=
+  tvec (contract_all t (rev (opponents_of xs i))).
+
+Fixpoint zip_with_index {A} (i : nat) (l : list A) : list (nat * A) :=
+  match l with [] => [] | a :: r => (i, a) :: zip_with_index (S i) r end.
+
+Fixpoint all_some {A} (l : list (option A)) : option (list A) :=
+  match l with
+  | [] => Some []
+  | Some a :: r => match all_some r with Some ar => Some (a :: ar) | None => None end
+  | None :: _ => None
+  end.
+
+(* _play: every best response first (to the OLD beliefs), then every belief is updated *)
+Definition nfp_step (arrays : list tensor) (gain : option T) (tol : T)
+  (st : list (list T) * Z) (_ : unit) : option (list (list T) * Z) :=
+  let '(xs, t) := st in
+  match all_some (map (fun it => best_response (payoff_vector_n (snd it) xs (fst it)) tol)
+                      (zip_with_index 0 arrays)) with
+  | Some brs =>
+    let s := step_size gain t in
+    Some (map (fun xb => fp_update (fst xb) (snd xb) s) (combine xs brs), t + 1)
+  | None => None
+  end.
+Definition nfp_series arrays gain tol (xs : list (list T)) (t_init : Z) (periods : nat) :=
+  run (nfp_step arrays gain tol) (xs, t_init) (repeat tt periods).
+
+(* ---------- LogitDynamics with the construction of the cumulative choice weights ----------
+   __init__: logit_choice_cdfs[profile] = cumsum(exp((payoffs - max(payoffs)) * beta)); exp is a parameter *)
+Fixpoint cumsum_from_l (acc : T) (l : list T) : list T :=
+  match l with [] => [] | x :: r => let s := nadd acc x in s :: cumsum_from_l s r end.
+Definition cumsum_l (l : list T) : list T :=
+  match l with [] => [] | x :: r => x :: cumsum_from_l x r end.
+Variable expf : T -> T.
+Definition logit_cdf (beta : T) (payoffs : list T) : list T :=
+  cumsum_l (map (fun p => expf (nmul (nsub p (vmax payoffs)) beta)) payoffs).
+Definition logit_tables (beta : T) (pays : list (list (list Z * list T))) : list (list (list Z * list T)) :=
+  map (map (fun kv => (fst kv, logit_cdf beta (snd kv)))) pays.
+(* the whole _play step from the payoffs *)
+Definition logit_step_full (beta : T) (pays : list (list (list Z * list T))) (actions : list Z) (d : Z * T) :=
+  logit_step (logit_tables beta pays) actions d.
+End NPlayer.
